@@ -46,4 +46,12 @@ def MOp.isWrapperWrite : MOp → Bool
   | .wwrite _ _ => true
   | _ => false
 
+theorem mstep_m_congr {s t : MSt} (h : s.m = t.m) (op : MOp) : (s.step op).m = (t.step op).m := by
+  cases op with
+  | get k =>
+    simp only [MSt.step, MSt.getKey]
+    rw [h]; cases t.m k <;> simp [h]
+  | wwrite w x => simp only [MSt.step]; split <;> split <;> simp [h]
+  | _ => simp [MSt.step, h]
+
 end GojaModel.C13
